@@ -210,10 +210,47 @@ def c05_5(rep, ix, R="C05.5"):
     f = ix.func(ARRAY)
     fn = f.node
     apps = [n for n in walk_shallow(fn) if isinstance(n, ast.Call) and isinstance(n.func, ast.Attribute) and n.func.attr == "append" and u(n.func.value) == "parameters"]
-    if len(apps) != 1 or not isinstance(apps[0].args[0], ast.Tuple):
+    # the list the re-insertion loop runs over holds (position, symbol) pairs recorded while the rows are scanned; a symbol that is read
+    # back from the module-level parameter table instead is not tied to the element it stands for
+    other = [n for n in walk_shallow(fn) if isinstance(n, ast.Assign) and any(isinstance(t, ast.Name) and t.id == "parameters" for t in n.targets)
+             and not (isinstance(n.value, ast.List) and not n.value.elts)]
+    for n in other:
+        if "_PARAMS" in u(n.value):
+            rep.bad(R, ix.site(f, n), "every recorded parameter is the symbol obtained by evaluating the element at the recorded position",
+                    "`%s` reads the symbols back from the shared parameter table: position and symbol are paired by table order, which other entries / de-duplication break" % " ".join(u(n).split())[:90],
+                    key="symbol source")
+            return
+    if len(apps) != 1 or not isinstance(apps[0].args[0], ast.Tuple) or other:
         raise Inconclusive("exitArrayvar: parameters.append((index, symbol)) not recognised")
+    symsrc = resolved_text(fn, apps[0].args[0].elts[1], stmt_of(fn, apps[0])) if len(apps[0].args[0].elts) == 2 else ""
+    rep.check(symsrc.startswith("_expression("), R, ix.site(f, apps[0]), "the recorded symbol is the value of evaluating that element", "records `%s`" % symsrc, key="symbol eval")
     idx = " ".join(u(apps[0].args[0].elts[0]).split())
     good = idx in ("len(value) + len(parameters)", "len(parameters) + len(value)")
+    ie = apps[0].args[0].elts[0]
+    if not good and isinstance(ie, ast.BinOp) and isinstance(ie.op, ast.Add):
+        # row-major arithmetic: <row index> * <row length> + <column index>, indices from enumerate() over the rows / the entries of a row
+        mul, col = (ie.left, ie.right) if isinstance(ie.left, ast.BinOp) else (ie.right, ie.left)
+        if isinstance(mul, ast.BinOp) and isinstance(mul.op, ast.Mult) and isinstance(col, ast.Name):
+            encl = [l for l in walk_shallow(fn) if isinstance(l, ast.For) and any(x is apps[0] for x in ast.walk(l))]
+            encl.sort(key=pos)
+            enum = {}
+            for depth_, l in enumerate(encl):
+                if isinstance(l.iter, ast.Call) and u(l.iter.func) == "enumerate" and isinstance(l.target, ast.Tuple) and len(l.target.elts) == 2 and isinstance(l.target.elts[0], ast.Name):
+                    enum[l.target.elts[0].id] = (depth_, l)
+            for rname, stride in ((mul.left, mul.right), (mul.right, mul.left)):
+                if isinstance(rname, ast.Name) and rname.id in enum and col.id in enum and enum[rname.id][0] < enum[col.id][0]:
+                    inner = enum[col.id][1]
+                    full_row = " ".join(u(inner.iter.args[0]).split()).endswith(".expression()") if inner.iter.args else False
+                    st_txt = resolved_text(fn, stride, stmt_of(fn, apps[0]))
+                    rows_txt = resolved_text(fn, enum[rname.id][1].iter.args[0], enum[rname.id][1]) if enum[rname.id][1].iter.args else "?"
+                    is_rowcount = st_txt in ("len(%s)" % rows_txt, "len(%s)" % u(enum[rname.id][1].iter.args[0])) or st_txt.startswith("len([") and "ArrayrowContext" in st_txt
+                    is_rowlen = ".expression())" in st_txt and st_txt.startswith("len(") or "row_lengths" in st_txt
+                    if is_rowcount and not is_rowlen:
+                        rep.bad(R, ix.site(f, apps[0]), "the recorded position of a parameter is its row-major index: row * (entries per row) + column",
+                                "records `%s`: the stride `%s` is the number of rows, not the length of a row - wrong for every non-square array" % (idx, st_txt[:60]), key="index")
+                        return
+                    if is_rowlen and full_row:
+                        good = True
     if not good and idx not in ("len(value)", "len(parameters)"):
         raise Inconclusive("exitArrayvar: parameter index `%s` outside the idiom set" % idx)
     rep.check(good, R, ix.site(f, apps[0]), "the recorded position is len(value) + len(parameters)", "records `%s`: from the second parameter on every parameter lands too early" % idx, key="index")
